@@ -11,7 +11,7 @@ import weakref
 
 class IdAlloc:
     def __init__(self, on_event=None):
-        self.lock = threading.Lock()
+        self.lock = threading.RLock()   # re-entrant: a finaliser may run (GC) while an id is being handed out
         self.live: dict[int, int] = {}
         self.used: set[int] = set()
         self.on_event = on_event
